@@ -231,8 +231,9 @@ func init() {
 		Build: func(c *Ctx) []*an.Oblig {
 			cooldownProtocol(c)
 			cleanerAlwaysConsulted(c)
-			cleanupLogic(c)       // what a pass removes, and that a pass which reports a change has made progress
-			fixedBufferCleaner(c) // the forced trim that bounds a quiescent buffer by max
+			cleanupLogic(c)         // what a pass removes, and that a pass which reports a change has made progress
+			fixedBufferCleaner(c)   // the forced trim that bounds a quiescent buffer by max
+			ensureRecheck(c, false) // a racing first use that re-runs the default-cleaner initialiser replaces a configured cleaner (FixedBufferCleaner, the cooldown) behind SetCleanerConfig's back
 			out := c.sel(func(o *an.Oblig) bool {
 				if isUndecided(o) || o.Rule == "ANCHOR" {
 					return true
